@@ -5,6 +5,7 @@ import (
 	"fmt"
 	"io"
 	"strings"
+	"time"
 
 	"github.com/gregoryv/mq"
 
@@ -190,6 +191,7 @@ func c01ExecMode(c *pcase, interleaved bool) (*core.Finding, bool) {
 	if len(diff) > 0 {
 		return mk("field:"+diffClass(diff), fmt.Sprintf("after write+read: %s (frame %s)", strings.Join(clipList(diff, 4), "; "), abbrevHex(f1))), true
 	}
+	advanceClock(time.Hour + 7*time.Second) // the decoded packet is written again an hour later
 	f2, _, werr, res := writePacket(r, 0)
 	if res.Panic != "" || werr != nil {
 		return mk("rewrite-fails", fmt.Sprintf("%v %s", werr, res.Panic)), true
